@@ -150,6 +150,8 @@ package jsonrpc2
 //@ requires r != nil && !held(r.mu) && buffered(r)
 //@ ensures [buffered] buffered(r)
 //@ ensures [result] err == nil ==> result != nil
+//@ ensures [abandoned-call-gets-no-reply] err != nil ==> result == nil
+//@ ensures [forgets-its-own-entry] !has(r.pending, string(ID))
 //@ ensures [unlocked] !held(r.mu)
 //@ ensures [forgets-only-its-own-entry] forall k string :: k != string(ID) && old(has(r.pending, k)) && old(r.pending[k].waiting) ==> has(r.pending, k) && r.pending[k] == old(r.pending[k])
 //@ callreq pendingChan [waits-on-its-own-id] : arg0 == string(ID) && arg1
